@@ -7,7 +7,7 @@ use std::collections::HashSet;
 
 fn all_keys() -> Vec<ServiceKey> {
     let mut v = vec![];
-    for t in ["", "tb"] { for g in ["ga", "gb"] { for d in ["app1", "app2", "web1"] { v.push(ServiceKey::new(t, g, d)); } } }
+    for t in ["public", "tb"] { for g in ["ga", "gb"] { for d in ["app1", "app2", "web1"] { v.push(ServiceKey::new(t, g, d)); } } }
     v
 }
 
@@ -63,7 +63,7 @@ fn vx_fallback_serviceindex() {
         ];
         for (pi, pr) in privs.iter().enumerate() {
             if pi > 0 && mask % 3 != 0 { continue; }
-            for tenant in [None, Some(""), Some("tb")] {
+            for tenant in [None, Some("public"), Some("tb")] {
                 for (g, d, lg, ld) in filters.iter() {
                     for limit in [1usize, 2, 3, 100] {
                         let mut pages: Vec<ServiceKey> = vec![];
